@@ -76,7 +76,8 @@ class Python2VerilogTranspiler:
         node = createVerilogBody(module.body, '*')
         # the simulator's wires power up at 0: the output registers get the same initial value
         from py4hw.rtl_generation import getValidVerilogName
-        node.init.body = [VerilogVariableAssignment(VerilogWire(getValidVerilogName(outp.name)), VerilogConstant(0)) for outp in self.obj.outPorts]
+        # constructor constants first (as in transpileSequential), then the outputs
+        node.init.body = init.init.body + [VerilogVariableAssignment(VerilogWire(getValidVerilogName(outp.name)), VerilogConstant(0)) for outp in self.obj.outPorts]
         
         #initExtracter = ExtractInitializers(self.obj)
         #init = initExtracter.visit(node)
